@@ -3,7 +3,7 @@ import collections
 import os
 import vlib
 from props import codec
-LEVEL = "other"
+LEVEL = "proof"
 EXPLANATION = (
     "proved oracle + exploration.  Proved in Coq: level-iteration BFS computes shortest distances (C16_bfs_dist); the "
     "executable eccentricities, diameter, radius, default radial set are the documented reachability-restricted ones and the "
